@@ -25,7 +25,7 @@ MODE_OF = {"float32": "f32", "int16": "i16", "int8": "i8"}
 # the extensions (e, m, r, c), in a dot-separated inner part, a digit, an upper-case letter, or are an extension
 # themselves; none is "default" / "none" (reserved by the specification for "no explicit name")
 STEMS = ["volume", "frame", "tomogram", "ctf_corr", "mic", "a.b", "x.em.bak", "M", "rec", "em", "mrc", "e", "m", "c",
-         "tilt_1", "vol.mrc", "data.e", "Tomo7.r", "au_1", "stack.em.1"]
+         "tilt_1", "vol.mrc", "data.e", "Tomo7.r", "au_1", "stack.em.1", "2024", "007", "0"]
 
 
 def pick_stems(rng, k):
